@@ -3,13 +3,16 @@ use crate::sink::Outcome;
 use crate::val::Val;
 use std::cell::RefCell;
 use std::panic::{catch_unwind, AssertUnwindSafe};
-use std::sync::atomic::{AtomicU64, Ordering};
+use std::sync::atomic::{AtomicBool, AtomicU64, Ordering};
 use std::sync::Mutex;
 
 thread_local! {
     static LAST_PANIC: RefCell<(String, String)> = RefCell::new((String::new(), String::new()));
 }
 pub static PROGRESS: AtomicU64 = AtomicU64::new(0);
+/// true while control is inside the library under test (the watchdog only times those stretches: the harness's own
+/// generator loops may take long without meaning anything)
+pub static IN_CALL: AtomicBool = AtomicBool::new(false);
 pub static CURRENT: Mutex<(&'static str, &'static str, &'static str, u32, [u64; 4])> = Mutex::new(("", "", "", 0, [0; 4]));
 
 pub fn set_current(op: &'static str, t: &'static str, sp: &'static str, n: u32, x: &[u64]) {
@@ -46,7 +49,10 @@ pub fn install() {
 /// `desc` is only materialised when the watchdog fires
 pub fn guarded<F: FnOnce() -> Option<Vec<Val>>>(f: F) -> Option<Outcome> {
     PROGRESS.fetch_add(1, Ordering::Relaxed);
-    match catch_unwind(AssertUnwindSafe(f)) {
+    IN_CALL.store(true, Ordering::Relaxed);
+    let r = catch_unwind(AssertUnwindSafe(f));
+    IN_CALL.store(false, Ordering::Relaxed);
+    match r {
         Ok(Some(v)) => Some(Outcome::Ok(v)),
         Ok(None) => None,
         Err(_) => {
@@ -62,10 +68,19 @@ pub fn watchdog(path: String, secs: u64) {
     std::thread::spawn(move || {
         let mut last = PROGRESS.load(Ordering::Relaxed);
         let mut still = 0;
+        let mut idle = 0u64;
         loop {
             std::thread::sleep(std::time::Duration::from_millis(500));
             let cur = PROGRESS.load(Ordering::Relaxed);
-            if cur == last && cur != 0 && cur != u64::MAX {
+            if cur == last && cur != 0 && cur != u64::MAX && !IN_CALL.load(Ordering::Relaxed) {
+                // the harness itself is busy (input generation): not a property of the library; give up only after 30 min
+                idle += 1;
+                if idle > 3600 {
+                    eprintln!("WATCHDOG: harness stalled outside any library call");
+                    std::process::exit(4);
+                }
+            } else if cur == last && cur != 0 && cur != u64::MAX {
+                idle = 0;
                 still += 1;
                 if still as u64 >= secs * 2 {
                     let c = CURRENT.lock().map(|s| *s).unwrap_or(("?", "?", "?", 0, [0; 4]));
@@ -79,6 +94,7 @@ pub fn watchdog(path: String, secs: u64) {
                 }
             } else {
                 still = 0;
+                idle = 0;
                 last = cur;
             }
         }
